@@ -42,6 +42,13 @@ WITNESS2 = {"kind": "surf", "V": [[0, 0, 0], [3 * G.UNIT, 0, 0], [0, 3 * G.UNIT,
             "ops": [["fan", 0]], "query": True, "planar": True, "seed_kind": "witness"}
 
 
+KNOWN_KEY2 = "C13/non-simple-input-triangulate"
+WITNESS_NS = {"kind": "surf",
+              "V": [[-G.UNIT, 0, 0], [0, G.UNIT, 0], [0, 0, G.UNIT], [0, 0, -G.UNIT], [G.UNIT, 0, 0], [0, -G.UNIT, 0]],
+              "F": [[5, 4, 2], [3, 1, 4], [4, 1, 2], [4, 5, 3], [2, 1, 0, 5], [3, 5, 0, 1]],
+              "ops": [["triangulate"]], "query": False, "planar": False, "seed_kind": "witness"}
+
+
 def gen(ctx):
     return tr.gen()
 
@@ -235,10 +242,11 @@ def surf_term(case, o):
         out = "(SErr %s)" % err_term(o["err"])
     else:
         r, a = o["res"], o["arg"]
-        out = "(SOk (mksobs %s %s %s %s %s %s %s %s))" % (
+        out = "(SOk (mksobs %s %s %s %s %s %s %s %s %s))" % (
             "[" + "; ".join(pt_out(p) for p in r["V"]) + "]", pairs(r["E"]), zll(r["F"]), pairs(r["corn"]),
-            "[" + "; ".join(pt_out(p) for p in a["V"]) + "]", pairs(a["E"]), zll(a["F"]), pairs(a["corn"]))
-    return "(%s, %s, %s, %s)" % (V, zll(case["F"]), ops, out)
+            "[" + "; ".join(pt_out(p) for p in a["V"]) + "]", pairs(a["E"]), zll(a["F"]), pairs(a["corn"]),
+            core.coq_bool(o["arg_conn_ok"]))
+    return "(%s, %s, %s, %s, %s)" % (V, zll(case["F"]), core.coq_bool(bool(case.get("query"))), ops, out)
 
 
 def sd_term(case, o):
@@ -274,7 +282,7 @@ def vol_term(case, o):
     return "(%s, %s, %s, %s)" % (V, zll(case["C"]), ops, out)
 
 
-ENC = {"surf": (surf_term, "check_surface", "(list pt * list (list Z) * list sop * sout)"),
+ENC = {"surf": (surf_term, "check_surface", "(list pt * list (list Z) * bool * list sop * sout)"),
        "sd": (sd_term, "check_split_double", "(list pt * list (list Z) * option (list pt * list edge * list (list Z) * list (Z * Z)))"),
        "poly": (poly_term, "check_polyline", "(list pt * list edge * list Z * option (list pt * list edge))"),
        "vol": (vol_term, "check_volume", "(list pt * list (list Z) * list vop * option vobs)")}
@@ -475,6 +483,15 @@ def run(ctx):
         else:
             ctx.log("known-finding witness %s no longer fails (the argument object is now unchanged or equal to the result)" % w["ops"])
             ctx.notes.append("known finding %s: witness %s no longer reproduces" % (KNOWN_KEY, w["ops"]))
+
+    # ... and the witness of the second known finding (a manifold input that is not simple)
+    ow = run_one(strip(WITNESS_NS))
+    fw = [(k, m) for k, m in ORA.check(WITNESS_NS, ow) if k.startswith("result/")]
+    if ORA.non_simple_surface(WITNESS_NS["F"]) and fw:
+        ctx.violation("non-simple manifold input: " + fw[0][1], {"case": strip(WITNESS_NS), "class": fw[0][0]}, key=KNOWN_KEY2)
+    else:
+        ctx.log("known-finding witness (non-simple input) no longer fails")
+        ctx.notes.append("known finding %s: witness no longer reproduces" % KNOWN_KEY2)
 
     # 4. verdicts
     reported = set()
